@@ -19,7 +19,7 @@ def run_C16(ctx):
     core.run_driver(ctx, ["session", "-in", beh, "-out", resp], timeout=3000)
     res = core.read_json(resp)
     os.remove(beh)
-    d2 = core.write_mc(ctx, "ServeGen", "ServeHTTP", {}, invariants=["WritesOnlyOnFailure", "RejectedIsSilent", "Export"])
+    d2 = core.write_mc(ctx, "ServeGen", "ServeHTTP", {"MaxOps": 2}, invariants=["WritesOnlyOnFailure", "RejectedIsSilent", "Export"])
     r2 = core.run_tlc(ctx, d2, "ServeGen", workers=1, timeout=600)
     beh2 = os.path.join(ctx.work, "beh-serve.ndjson")
     core.extract_exports(r2.stdout_path, beh2)
@@ -33,15 +33,17 @@ def run_C16(ctx):
         agg["distinct"] += rr["distinct_nontrivial"]
         agg["samples"] += rr["samples"][:2]
         agg["n_violations"] += rr["n_violations"]
-    agg["behaviours"] = res["behaviours"] + res2["evaluations"]
+    agg["behaviours"] = res["behaviours"] + res2["behaviours"]
     core.log("%s: session %d behaviours %s; serve %d cases %s" % (ctx.pid, res["behaviours"], res["notes"].get("violation_signatures"), res2["evaluations"], res2["notes"].get("violation_signatures")))
     cov = {
         "states": ctx.states, "transitions": ctx.transitions, "traces_validated_against_impl": agg["behaviours"], "samples": agg["samples"][:4],
         "evaluations": agg["evaluations"], "distinct_nontrivial": agg["distinct"],
         "rule": "every sequence of <= %d Send / Flush calls over messages {m1, m2, empty} x 6 flushing writer shapes (Flusher, FlushError, both, wrapped once / twice via Unwrap) x a failure of the k-th underlying flush (k<=3) or of a write "
                 "of the k-th writing Send (k<=3; tried at every Write call of that Send, accepting half the bytes); the ordered log of header / flush / body writes on a "
-                "recording writer is compared with the spec's log, every call's return with the spec's; plus all 64 combinations of (can flush, Last-Event-Id absent / "
-                "empty / valid / multi-line, OnSession unset / reject / accept without / with topics, provider nil / error) through Server.ServeHTTP on 3 writer shapes" % (4 if q else 5),
+                "recording writer is compared with the spec's log, every call's return with the spec's; plus all 96 combinations of (can flush, Last-Event-Id absent / "
+                "empty / valid / multi-line, OnSession unset / reject / accept with nil / empty / one / two topics, provider nil / error) through Server.ServeHTTP on 3 writer shapes, and "
+                "Server.Publish with 0 / 1 / 2 topics - alone and as the second operation after every accepted request in the same process (what an operation does is a function of that "
+                "operation alone)" % (4 if q else 5),
         "exhaustive": True, "real_code_disagreements": agg["n_violations"],
     }
     core.write_evidence(ctx, "model_checking", cov, [
